@@ -14,14 +14,16 @@ fn parse_rk(dbg: &str) -> Option<Vec<u32>> {
 }
 
 fn new_cipher(t: &mut Tracer, sess: &str, key: &[u8]) -> Option<Sm4Cipher> {
-    let out = guard(|| Sm4Cipher::new(key));
+    let pk = crate::gen::realign(key);
+    let out = guard(|| Sm4Cipher::new(pk.get()));
     let rk = match out.ok().and_then(|c| parse_rk(&format!("{:?}", c))) { Some(v) => words16(&v), None => json!([]) };
     t.emit(sess, "sm4.new", json!({"prop": "C02", "key": bytes(key), "rk": rk, "outcome": out.name(), "detail": out.detail()}));
     match out { crate::trace::Outcome::Ok(c) => Some(c), _ => None }
 }
 
 fn block_op(t: &mut Tracer, sess: &str, c: &Sm4Cipher, enc: bool, kind: &str, block: &[u8]) -> Vec<u8> {
-    let out = guard(|| if enc { c.encrypt(block) } else { c.decrypt(block) });
+    let pb = crate::gen::realign(block);
+    let out = guard(|| if enc { c.encrypt(pb.get()) } else { c.decrypt(pb.get()) });
     let o = out.ok().cloned().unwrap_or_default();
     t.emit(sess, if enc { "sm4.enc" } else { "sm4.dec" },
         json!({"prop": "C02", "kind": kind, "block": bytes(block), "out": bytes(&o), "outcome": out.name(), "detail": out.detail()}));
@@ -122,6 +124,8 @@ fn mode_of(m: &str) -> CipherMode {
 // directions, and with calls that fail in between.  The specification is stateless per call, so any state the object carries shows as a deviation.
 thread_local! { static MODE_OBJS: std::cell::RefCell<Vec<((Vec<u8>, String), Sm4CipherMode)>> = std::cell::RefCell::new(vec![]); }
 fn mode_event(t: &mut Tracer, sess: &str, mode: &str, enc: bool, key: &[u8], iv: &[u8], g: Option<&Gen>, data: &[u8]) -> Option<Vec<u8>> {
+    let (pdata, piv) = (crate::gen::realign(data), crate::gen::realign(iv));
+    let (data, iv) = (pdata.get(), piv.get());
     let out = guard(|| {
         MODE_OBJS.with(|objs| {
             let mut objs = objs.borrow_mut();
